@@ -10,6 +10,9 @@ use rssl::ir;
 
 #[derive(Clone, Debug, PartialEq)]
 pub enum Decl {
+    /// `static` / `groupshared` global with an object type: lives in the shader, takes no slot
+    /// (shown to the model as a global that is not an external object: `g:<set>:0:-:<len>`)
+    StaticObject { set: Option<u32>, kind: &'static str, len: Option<u32> },
     Other,
     CBuffer(Option<u32>),
     Global {
@@ -66,6 +69,7 @@ fn show_decl(d: &Decl) -> String {
     let on = |o: &Option<u32>| o.map(|v| v.to_string()).unwrap_or_else(|| "-".into());
     match d {
         Decl::Other => "o".into(),
+        Decl::StaticObject { set, len, .. } => format!("g:{}:0:-:{}", on(set), on(len)),
         Decl::CBuffer(s) => format!("c:{}", on(s)),
         Decl::Global { set, ss, kind, len } => format!(
             "g:{}:{}:{}:{}",
@@ -108,6 +112,17 @@ fn source(decls: &[Decl]) -> String {
     for (i, d) in decls.iter().enumerate() {
         match d {
             Decl::Other => s.push_str(&format!("struct S{} {{ int x; }};\n", i)),
+            Decl::StaticObject { set, kind, len } => {
+                if let Some(g) = set {
+                    s.push_str(&format!("[[rssl::bind_group({})]] ", g));
+                }
+                let ty = KINDS.iter().find(|x| x.0 == *kind).unwrap().1;
+                s.push_str(&format!("static {} g{}", ty, i));
+                if let Some(n) = len {
+                    s.push_str(&format!("[{}]", n));
+                }
+                s.push_str(";\n");
+            }
             Decl::CBuffer(set) => {
                 if let Some(g) = set {
                     s.push_str(&format!("[[rssl::bind_group({})]] ", g));
@@ -216,6 +231,7 @@ fn oracle(decls: &[Decl], params: [bool; 4], dflt: u32, obs: &Observed) -> Resul
         // what the property requires for this declaration
         let (group, want): (u32, Option<(bool, u32)>) = match d {
             Decl::Other => (dflt, None),
+            Decl::StaticObject { set, .. } => (set.unwrap_or(dflt), None),
             Decl::CBuffer(s) => (s.unwrap_or(dflt), Some((false, 1))),
             Decl::Global { set, ss, kind, len } => {
                 let g = set.unwrap_or(dflt);
@@ -352,6 +368,7 @@ fn run_seq(
     for d in user {
         hist.add(match d {
             Decl::Other => "decl:other",
+            Decl::StaticObject { .. } => "decl:static-object",
             Decl::CBuffer(_) => "decl:cbuffer",
             Decl::Global { kind: None, .. } => "decl:non-object",
             Decl::Global { ss: true, .. } => "decl:static-sampler",
@@ -387,6 +404,10 @@ fn alphabet(full: bool) -> Vec<Decl> {
         a.push(Decl::Global { set: s, ss: false, kind: None, len: None });
     }
     a.push(Decl::Global { set: None, ss: false, kind: None, len: Some(2) });
+    for k in ["Texture2D", "RWStructuredBuffer", "SamplerState"] {
+        a.push(Decl::StaticObject { set: None, kind: k, len: None });
+        a.push(Decl::StaticObject { set: Some(1), kind: k, len: Some(2) });
+    }
     a
 }
 
@@ -405,7 +426,12 @@ fn random_decl(rng: &mut Rng) -> Decl {
         0 | 1 => None,
         n => Some((n - 2) as u32),
     };
-    match rng.below(20) {
+    match rng.below(22) {
+        20 | 21 => Decl::StaticObject {
+            set,
+            kind: *rng.pick(&["Texture2D", "RWStructuredBuffer", "ByteAddressBuffer", "SamplerState"]),
+            len: if rng.chance(1, 2) { None } else { Some(rng.range(1, 3) as u32) },
+        },
         0 => Decl::Other,
         1 | 2 => Decl::CBuffer(set),
         3 => Decl::Global { set, ss: false, kind: None, len: None },
